@@ -247,6 +247,10 @@ type Component struct {
 	// OnExit checks component assertions at the end of an entry call.
 	OnExit func(a *tsRun, s *tsState, e *Entry)
 	InitPers map[string]int8
+	// OnDecision is told about every labelled branch decision.
+	OnDecision func(s *tsState, label string, outcome int8)
+	// EntryEnabled restricts the most general client (e.g. to a protocol-conforming one).
+	EntryEnabled func(s *tsState, e *Entry) bool
 }
 
 type tsRun struct {
@@ -793,6 +797,9 @@ func (a *tsRun) run(s *tsState) {
 				nf.regs[in.Cond] = vbool(i == 0)
 				if label != "" {
 					n.dec[label] = int8(1 - i)
+					if c.OnDecision != nil {
+						c.OnDecision(n, label, int8(1-i))
+					}
 				}
 				a.refine(n, nf, in.Cond, i == 0)
 				a.jump(nf, b, b.Succs[i])
@@ -813,9 +820,15 @@ func (a *tsRun) run(s *tsState) {
 			}
 			s.stack = s.stack[:len(s.stack)-1]
 			if len(s.stack) == 0 {
-				for _, r := range in.Results {
-					if tv := a.get(f, r); tv.tag != "" {
+				for i, r := range in.Results {
+					tv := a.get(f, r)
+					if tv.tag != "" {
 						s.ghosts["ret:"+tv.tag] = 1
+					}
+					if tv.k == kNil {
+						s.ghosts[fmt.Sprintf("ret%d:nonnil", i)] = int8(tv.n)
+					} else if _, isIface := r.Type().Underlying().(*types.Interface); isIface {
+						s.ghosts[fmt.Sprintf("ret%d:unknown", i)] = 1
 					}
 				}
 			}
@@ -1490,6 +1503,9 @@ func (a *tsRun) Explore(keepInit func(s *tsState) bool) {
 		work = work[1:]
 		for ei := range c.Entries {
 			ev := &c.Entries[ei]
+			if c.EntryEnabled != nil && !c.EntryEnabled(q, ev) {
+				continue
+			}
 			a.exits = nil
 			a.seen = map[string]bool{}
 			a.curEntry = ev
